@@ -56,7 +56,7 @@ pub fn parts_for(id: &str) -> Option<Vec<Part>> {
         "C12" => vec![part(c12_modcmp::ModCmpLaws, 200_000, 4_000_000), part(tcb_checks::IsnIndependence, 20_000, 1_500_000)],
         "C16" => vec![part(c16_routing::Routing, 300_000, 10_000_000)],
         "C17" => vec![part(tcb_checks::HostileSegments, 60_000, 4_000_000)],
-        "C13" => vec![part(c13_barrier::BarrierAndStatus { mt: false }, 100_000, 3_000_000), part(c13_barrier::BarrierAndStatus { mt: true }, 480, 16_000)],
+        "C13" => vec![part(c13_barrier::BarrierAndStatus { mt: false }, 100_000, 3_000_000), part(c13_barrier::BarrierAndStatus { mt: true }, 320, 10_000)],
         "C14" => vec![part(codecs::DecodersNoPanic, 1_000_000, 20_000_000), part(ndl::NdlNoPanic, 100_000, 3_000_000), part(c14_frames::MalformedFrames, 60_000, 2_000_000)],
         "C19" => vec![part(ndl::NdlRoundTrip, 40_000, 2_000_000), part(ndl::NdlRun, 10_000, 150_000)],
         "C15" => vec![part(c15_ipgen::IpGenHistories, 300_000, 6_000_000), part(c15_dhcp::DhcpLeases, 60_000, 2_000_000)],
